@@ -60,6 +60,14 @@ func wsGenText(r *Rng) *wsNode {
 		if r.Chance(15) {
 			t.comment = "{# " + r.Pick([]string{"c", "{{ v }}", "-", ""}) + " #}"
 			t.post = wsRun(r) + wsWord(r) + wsRun(r)
+			// the comment may be separated from the neighbouring delimiter by whitespace only: that whitespace is the
+			// adjacent literal text, the text on the far side of the comment is not
+			if r.Chance(35) {
+				t.post = wsRuns[r.Intn(len(wsRuns))] + wsRun(r)
+			}
+			if r.Chance(25) {
+				t.pre = wsRuns[r.Intn(len(wsRuns))] + wsRun(r)
+			}
 		}
 	}
 	// a text must not end in '{' followed by something that forms a delimiter; words "{" are followed by ws or tag start "{%": avoid
@@ -402,6 +410,46 @@ func c15Run(c *C) {
 			return
 		}
 		c.Cover(fmt.Sprintf("options_tb=%v_ls=%v", tb, ls))
+		if r.Chance(30) {
+			// the same document as the body of a block of a child template: the options set on the child template
+			// (the template that is executed) govern the child's own text; the base has no option-sensitive text
+			toks2 := append(append([]wsTok{{block: true, inner: "block doc"}}, toks...), wsTok{block: true, inner: "endblock"})
+			wsStrip(toks2, tb, ls)
+			var direct2 strings.Builder
+			wsDirect(doc, &direct2)
+			files := map[string]string{
+				"/base.tpl":     "[{% block doc %}{% endblock %}]",
+				"/child.tpl":    "{% extends \"/base.tpl\" %}" + wsSource(toks2, true),
+				"/stripped.tpl": "{% extends \"/base.tpl\" %}" + wsSource(toks2, false),
+			}
+			set, _ := newSet(files)
+			child, e1 := set.FromFile("/child.tpl")
+			hand, e2 := set.FromFile("/stripped.tpl")
+			d2 := D{"files": files, "TrimBlocks": tb, "LStripBlocks": ls, "options_set_on": "the child template after compile", "expected_direct": q("[" + direct2.String() + "]")}
+			if e1 != nil || e2 != nil {
+				d2["error"] = errStr(e1) + errStr(e2)
+				c.Fail("error", d2)
+				return
+			}
+			child.Options.TrimBlocks = tb
+			child.Options.LStripBlocks = ls
+			o1, x1 := child.Execute(wsCtx())
+			o2, x2 := hand.Execute(wsCtx())
+			blocks, x3 := child.ExecuteBlocks(wsCtx(), []string{"doc"})
+			c.Eval(3)
+			d2["output_marked"], d2["output_hand_stripped"], d2["ExecuteBlocks_doc"] = q(o1), q(o2), q(blocks["doc"])
+			if x1 != nil || x2 != nil || x3 != nil {
+				d2["error"] = errStr(x1) + errStr(x2) + errStr(x3)
+				c.Fail("error", d2)
+				return
+			}
+			if o1 != o2 || o1 != "["+direct2.String()+"]" || blocks["doc"] != direct2.String() {
+				c.Fail("whitespace", d2)
+				return
+			}
+			c.Cover("child_template_options")
+			wsStrip(toks, tb, ls) // restore the stripped texts of the plain document
+		}
 		if c.WantSample() && o == 3 && markers > 1 && len(marked) < 200 {
 			c.Sample(d)
 		}
@@ -422,8 +470,8 @@ func init() {
 			return 50000
 		},
 		Run: c15Run,
-		Rule: "random documents (nesting depth <= 3) of literal texts with random whitespace runs (space, tab, CR, LF, CRLF) around {{ var }}, if/else and for constructs, every delimiter independently carrying '-' or not, {# #} comments only between two words; " +
-			"each rendered under all four TrimBlocks x LStripBlocks settings (set on the set before compiling or on the template after compiling) twice on the same compiled template and compared byte for byte with (1) the rendering of the hand-stripped source under default options and (2) the output computed directly from the generator's structure; " +
+		Rule: "random documents (nesting depth <= 3) of literal texts with random whitespace runs (space, tab, CR, LF, CRLF) around {{ var }}, if/else and for constructs, every delimiter independently carrying '-' or not, {# #} comments inside literal text (between two words, or with only whitespace - at least one character - between comment and the neighbouring delimiter); " +
+			"each rendered under all four TrimBlocks x LStripBlocks settings (set on the set before compiling or on the template after compiling) twice on the same compiled template and compared byte for byte with (1) the rendering of the hand-stripped source under default options and (2) the output computed directly from the generator's structure; in 30% of the settings the document is also the body of a block of a child template (options set on the child after compiling; Execute and ExecuteBlocks); " +
 			"20% of the cases are spaceless bodies of single-line tags, words, whitespace runs, variables, loops and nested spaceless blocks compared with an independent removal of the whitespace runs between '>' and '<'. distinct_nontrivial = distinct documents that carry at least one marker or an option-sensitive text.",
 		MinNontriv:  2000,
 		Assumptions: []string{"'-' or TrimBlocks directly adjacent to verbatim blocks and comments directly adjacent to a delimiter are not generated (unspecified)", "spaceless bodies contain no '<' or '>' outside tags"},
